@@ -68,9 +68,14 @@ def _components(u):
 
 
 def _as_set(x, what):
-    if not isinstance(x, (set, frozenset)):
-        raise Violation("bad_type", "%s returned %r (%s), expected a set" % (what, x, type(x).__name__))
-    return {int(v) for v in x}
+    # any collection of node indices is accepted (the property speaks of "the nodes"), but no node twice
+    try:
+        items = [int(v) for v in x]
+    except TypeError:
+        raise Violation("bad_type", "%s returned %r (%s), expected a collection of nodes" % (what, x, type(x).__name__))
+    if len(items) != len(set(items)):
+        raise Violation("bad_type", "%s lists a node twice: %r" % (what, items))
+    return set(items)
 
 
 def check(case):
